@@ -1067,7 +1067,7 @@ def check_trees(prog, out):
     return all(got.get(n) == sx(e) for n, _, e in prog)
 
 
-# findings repaired in /repo (fix commits c63554f, 6af2ac2): their classes suppress nothing any more, whatever
+# findings repaired in /repo (fix commits e9d64bd, 731d3f7): their classes suppress nothing any more, whatever
 # known_findings.json says; their witnesses stay in the case stream as regression inputs
 REPAIRED = {"slice-bound-unvalued", "hetero-collection"}
 
